@@ -8,7 +8,7 @@ use serde::{Deserialize, Serialize};
 use serde_json::Value;
 
 use crate::rngs::ScriptRng;
-use crate::selharness::{build_on, possible, Ind, Kind, Padded, Pop, Res, SelPop, Spec, WSpec};
+use crate::selharness::{build_on, padded, possible, Ind, Kind, Padded, Pop, Res, SelPop, Spec, WSpec};
 use crate::{ensure, fail, guarded, panic_key, Ctx, Fail, Probe};
 
 #[derive(Clone, Debug, Serialize, Deserialize)]
@@ -165,7 +165,7 @@ pub fn oracle(case: &Case, probe: &mut Probe) -> Result<(), Fail> {
         if case.pop_kind == 0 {
             check::<ErrRes<i64>, Pop<ErrRes<i64>>>(case, &pop, second.as_ref(), probe)
         } else {
-            check::<ErrRes<i64>, Padded<ErrRes<i64>>>(case, &Padded::new(pop, extra), second.map(|s| Padded::new(s, extra)).as_ref(), probe)
+            check::<ErrRes<i64>, Padded<ErrRes<i64>>>(case, &padded(pop, extra), second.map(|s| padded(s, extra)).as_ref(), probe)
         }
     } else {
         let pop = population::<Score<i64>>(&case.results, |r| Score(r.iter().sum()));
@@ -173,7 +173,7 @@ pub fn oracle(case: &Case, probe: &mut Probe) -> Result<(), Fail> {
         if case.pop_kind == 0 {
             check::<Score<i64>, Pop<Score<i64>>>(case, &pop, second.as_ref(), probe)
         } else {
-            check::<Score<i64>, Padded<Score<i64>>>(case, &Padded::new(pop, extra), second.map(|s| Padded::new(s, extra)).as_ref(), probe)
+            check::<Score<i64>, Padded<Score<i64>>>(case, &padded(pop, extra), second.map(|s| padded(s, extra)).as_ref(), probe)
         }
     }
 }
